@@ -22,10 +22,12 @@ clock_init(struct clock* clock)
 {
     clock->origin = g_now;
 }
+static uint64_t g_deadline; /* "now - delay" as computed by the function under test */
 void
 clock_shift_ms(struct clock* clock, double ms)
 {
     clock->origin = nd_ulong(); /* any instant */
+    g_deadline = clock->origin;
 }
 int8_t
 clock_cmp(struct clock* clock, uint64_t timestamp)
@@ -188,6 +190,21 @@ h_vfslice_split(void)
     VASSERT(cut == off[0] || cut == off[1] || cut == total,
             "[C05.split-at-frame-boundary,C04.split-at-frame-boundary] the consumed part is a whole number of frames");
     VASSERT(cut <= total, "[C05.split-inside-slice] the cut lies inside the slice");
+    /* progress of the delayed writer (safety form): frames that are old enough are released.
+     * Without it the sink's inner loop maps the same data again and again and nothing is
+     * stored before the final flush. Only the two unambiguous cases are pinned down (no
+     * delay; every frame strictly older than the deadline) - how a frame exactly at the
+     * deadline is treated is left to the code. */
+    VASSERT(!(delay_ms < 1.0e-3f) || cut == total,
+            "[C04.no-delay-releases-everything] without a write delay the whole slice is handed to storage");
+    {
+        int all_old = 1;
+        for (unsigned i = 0; i < K; ++i)
+            if (i < nframes && !(((const struct VideoFrame*)(buf + off[i]))->timestamps.acq_thread < g_deadline))
+                all_old = 0;
+        VASSERT(!(delay_ms >= 1.0e-3f && all_old) || cut == total,
+                "[C04.old-frames-are-released] when every frame of the slice is older than the write delay the whole slice is handed to storage");
+    }
     VCOVER(nframes == K && cut == off[1], "cut after the first frame of a 2-frame packet");
     VCOVER(nframes == 0, "empty slice");
     H_END;
